@@ -129,6 +129,11 @@ def make_case(seed, idx, tier):
     opt = rng.choice([0.0, 1.0, -2.5, 100.0, -3000.0])
     wr = []
     ncalls = rng.randint(5, 200 if tier == "thorough" else 80)
+    long_run = idx % 200 == 77
+    if long_run:
+        # a long-lived wrapper: more than 10 000 calls through one stats / counting wrapper
+        ncalls = rng.randint(10100, 11000)
+        stack = [rng.choice(["stats", "count"]), "stats"][: max(1, depth)] if depth else ["stats"]
     for k in stack:
         if k == "cutoff":
             wr.append({"k": k, "n": rng.choice([0, 1, 2, 3, 5, 10, 30, ncalls - 1, ncalls, ncalls + 5])})
@@ -159,7 +164,11 @@ def make_case(seed, idx, tier):
         else:
             v = rng.choice([near, far, far])
         vals.append(float(v).hex())
-    return {"kind": "c16", "stack": wr, "maximize": maximize, "values_hex": vals, "mode": mode, "idx": idx}
+    d = {"kind": "c16", "stack": wr, "maximize": maximize, "values_hex": vals, "mode": mode, "idx": idx}
+    if len(wr) >= 2 and idx % 5 == 2:
+        # the outermost wrapper is put around a stack that has already been used for a while (wrapping late)
+        d["late_wrap_after"] = rng.randint(1, max(1, min(12, ncalls // 2)))
+    return d
 
 
 def run_case(desc):
@@ -236,6 +245,10 @@ def run_case(desc):
         objs.append(p)
         models.append(m)
     top = p
+    late = int(desc.get("late_wrap_after", 0) or 0)
+    if late and len(objs) >= 2:
+        # rebuild: everything but the outermost wrapper first; the outermost one is constructed after `late` calls
+        cov["late_wrapped_stacks"] += 1
     shape = tuple(w["k"] for w in desc["stack"])
     for a, b in zip(shape, shape[1:]):
         cov[f"pair.inner={a}.outer={b}"] += 1
@@ -262,9 +275,30 @@ def run_case(desc):
             cust = " (user-defined innermost problem)" if custom_inner else ""
             viol(f"fitness comparison of the stack differs from the innermost problem's{nan}{cust}", stack=shape, a=a, b=b, got=bool(got), innermost=bool(inner), maximize=maximize)
 
+    def build_outer(w, inner):
+        k = w["k"]
+        if k == "count":
+            return EvalCountingProblem(inner), Model(k, maximize)
+        if k == "stats":
+            return StatsGatheringProblem(inner), Model(k, maximize)
+        if k == "cutoff":
+            return EvalCutoffProblem(inner, w["n"]), Model(k, maximize, n=w["n"])
+        return PrecisionCutoffProblem(inner, w["opt"], w["eps"]), Model(k, maximize, opt=w["opt"], eps=w["eps"])
+
+    if late and len(objs) >= 2:
+        full_objs, full_models = objs, models
+        objs, models = objs[:-1], models[:-1]
+        top = objs[-1]
     past_cutoff = 0
     hits = 0
     for i, hx in enumerate(desc["values_hex"]):
+        if late and i == late and len(desc["stack"]) >= 2 and len(objs) == len(desc["stack"]) - 1:
+            o_, m_ = build_outer(desc["stack"][-1], top)  # constructed now, around an inner stack that has already counted `late` calls
+            objs, models = objs + [o_], models + [m_]
+            top = o_
+            if o_.n_evaluations != 0:
+                viol(f"a freshly constructed {m_.kind} wrapper does not start at zero", stack=desc["stack"], got=int(o_.n_evaluations), inner_calls_before=late)
+                m_.count = int(o_.n_evaluations)  # keep following the implementation so that one defect is reported once
         v = float.fromhex(hx)
         x = np.array([v, 0.5])
         n_before = len(calls)
